@@ -30,7 +30,8 @@ def run(repo, pids=None):
                         err = str(e)[:200]
                         break
             out[pid] = {"violated": viol, "undecided": len(ctx.undecided),
-                        "error": err}
+                        "error": err,
+                        "why": [str(u)[:300] for u in ctx.undecided][:4]}
         except AnalysisError as e:
             out[pid] = {"violated": [], "undecided": 0, "error": str(e)[:200]}
         except Exception:
